@@ -111,6 +111,9 @@ void h_drain(void)
                    "D6 closed counter, gauge and notifications move by exactly the number of open sessions met in the table");
   __CPROVER_assert(P0.cur != GIT.open_seen || E._atomicStats.sessionsCurrent == 0, "D7 the gauge returns to zero when it counted exactly the open sessions");
   __CPROVER_assert((P0.idx_has || !E._peerIndex.has) && (P0.tag_has || !E._tags.has), "D10 no index entry or tag appears");
+  __CPROVER_assert(!G.cl.gfd_closed || !E._tags.has, "D13 (stale tag) a descriptor that shutdownDrain closed keeps no tag: after a restart the reused fd number cannot be dispatched to a destroyed session");
+  __CPROVER_assert(G.cl.gfd_closed || E._tags.has == P0.tag_has, "D14 a descriptor that was not closed keeps its tag (listener-shared sessions: no fd close, no tag erase)");
+  __CPROVER_assert(!(open && W0.fd == GFD && W0.role == Role_ClientConnected) || G.cl.gfd_closed, "D15 an open connected-client session has its own descriptor closed (and, D13, its tag erased); a listener-side session closes nothing (bounded cross-check D8)");
   __CPROVER_assert(!(P0.idx_has && P0.idx_val == GSID) || !E._peerIndex.has, "D12 (SD-1, with INV) an index entry naming a session of the table is gone: nothing dispatches to a destroyed session after a restart");
   IORA_CANARY("h_drain: returns");
 }
